@@ -20,20 +20,22 @@ vars == <<obj, data>>
 Tokens == {"ninf", "m1", "nz", "pz", "p1", "pinf", "nan"}
 NonNaN == Tokens \ {"nan"}
 
-Num(t) == CASE t = "ninf" -> -2 [] t = "m1" -> -1 [] t = "nz" -> 0 [] t = "pz" -> 0
-            [] t = "p1" -> 1 [] t = "pinf" -> 2
+\* the infinities as integers beyond every finite value a model or a recorded trace uses
+PosInf == 1073741824
+NegInf == -PosInf
 
-PosInf == 2
-NegInf == -2
+Num(t) == CASE t = "ninf" -> NegInf [] t = "m1" -> -1 [] t = "nz" -> 0 [] t = "pz" -> 0
+            [] t = "p1" -> 1 [] t = "pinf" -> PosInf
 
 IMin(a, b) == IF a <= b THEN a ELSE b
 IMax(a, b) == IF a >= b THEN a ELSE b
 
 NewObj == [mn |-> PosInf, mx |-> NegInf]       \* Min::new(), Max::new()
 
-\* f64::min / f64::max ignore a NaN operand
-ObjAdd(o, t) == IF t = "nan" THEN o
-                ELSE [mn |-> IMin(o.mn, Num(t)), mx |-> IMax(o.mx, Num(t))]
+\* f64::min / f64::max ignore a NaN operand; r is the numeric value of a non-NaN observation
+ObjAddR(o, isnan, r) == IF isnan THEN o
+                        ELSE [mn |-> IMin(o.mn, r), mx |-> IMax(o.mx, r)]
+ObjAdd(o, t) == ObjAddR(o, t = "nan", IF t = "nan" THEN 0 ELSE Num(t))
 \* merge = self.add(other.x)
 ObjMerge(a, b) == [mn |-> IMin(a.mn, b.mn), mx |-> IMax(a.mx, b.mx)]
 
@@ -75,7 +77,8 @@ Ranks(d) == {Num(d[i]) : i \in {j \in 1..Len(d) : d[j] # "nan"}}
 SetMin(S) == CHOOSE m \in S : \A x \in S : m <= x
 SetMax(S) == CHOOSE m \in S : \A x \in S : m >= x
 
-TypeOK == \A s \in Slots : obj[s].mn \in -2..2 /\ obj[s].mx \in -2..2 /\ data[s] \in Seq(Tokens)
+RankSet == {NegInf, -1, 0, 1, PosInf}
+TypeOK == \A s \in Slots : obj[s].mn \in RankSet /\ obj[s].mx \in RankSet /\ data[s] \in Seq(Tokens)
 
 ExtremeIsDef == \A s \in Slots :
     LET R == Ranks(data[s]) IN
